@@ -76,7 +76,11 @@ def energy_second_moment_mps_impl(
     """
     h_square = hamiltonian @ hamiltonian
     h_2 = h_square.expect(state).cpu()
-    assert torch.allclose(h_2.imag, torch.zeros_like(h_2.imag), atol=1e-4)
+    # H @ H is compressed to a relative precision of 1e-5: the spurious imaginary part
+    # scales with the value itself, so the sanity check must be relative too
+    assert torch.allclose(
+        h_2.imag, torch.zeros_like(h_2.imag), atol=1e-4 * max(1.0, float(h_2.real.abs()))
+    )
     return h_2.real
 
 
